@@ -1,4 +1,22 @@
-"""Decision-table extraction shared by C01, C12 and C13: verb/except -> questions asked -> buckets -> modes."""
+"""Decision-table extraction shared by C01, C12 and C13: verb/except -> questions asked -> buckets -> modes.
+
+How the tables are obtained (since the re-engineering against behaviour-preserving refactorings):
+
+  * `run_scenario(repo, Scenario(verb, except, import_))` builds a `Rule()` with the abstract interpreter of rules/absint.py, sets the
+    public `RuleConfiguration` fields to one point of the finite configuration space (flags concrete; subjects, objects and the
+    evaluable symbolic) and interprets the public entry point `Rule.assert_applies(evaluable)` down to - but not into - the graph
+    layer.  The `Run` holds the events: graph questions with their arguments, requirement objects built, AssertionError raises,
+    the matcher / detector / violations objects (all found by role).
+  * `demand_run` re-asks the detector of that run with both query results available and classifies every violation bucket from its
+    add-events (`classify_bucket`): *present* (elements are realisations of a query result, unfiltered = per-pair) or *absent* (keys
+    whose own list of realisations is empty = per-key; anything else = joint).
+  * `Inliner`, `issuing_conditions`, `bucket_wiring`, `data_sources` keep their old signatures (C03 / C05 / C13 import them) but
+    read their answers off those runs; `method_mode` / `classify_helper` at the end of the file are the old syntactic classification,
+    kept unchanged for C05 (layer detector).
+
+No private name of the pipeline is used as an anchor: public API only (`Rule`, `assert_applies`, the fluent vocabulary, the fields of
+`RuleConfiguration`, the three query methods of `EvaluableArchitecture`, `get_rule_violation`), everything else by role.
+"""
 
 from __future__ import annotations
 
@@ -134,74 +152,657 @@ def parse_language_doc(repo: Repo) -> tuple[dict, dict]:
     return markers, sem
 
 
-# --------------------------------------------------------------------------- inlining requirement flags
+# --------------------------------------------------------------------------- the pipeline, interpreted (rules/absint.py)
+
+from .absint import Alt, BoolF, ClsV, Coll, Const, DictV, Event, Inst, Interp, Sym, Tup, assign_atoms, roots_of, show_term, subterms, tainted, term_of  # noqa: E402
+
+PIPE_MODULES = (RULE, MATCHER, BEHAVIOR, MODREQ, DETECTOR, VIOLATIONS)
+QUERIES = (EXPLICIT_QUERY, *OTHER_QUERIES)
+CONFIG_FIELDS = ("modules_to_check", "modules_to_check_against", "should", "should_only", "should_not", "except_present", "import_", "rule_object_anything")
+EVALUABLE_CLS = "pytestarch.eval_structure.evaluable_architecture.EvaluableArchitecture"
+
+
+@dataclass
+class Scenario:
+    verb: str
+    exc: bool
+    import_: bool
+    anything: bool = False
+    symbolic_verbs: bool = False  # alias scenarios: the other verb flags stay symbolic (they must survive the rewrite untouched)
+
+    @property
+    def name(self) -> str:
+        if self.anything:
+            return f"{self.verb.replace('_', ' ')} {'import' if self.import_ else 'be imported by'} anything"
+        return f"{point_name(self.verb, self.exc)} ({'import' if self.import_ else 'be imported by'})"
+
+
+@dataclass
+class Run:
+    sc: Scenario
+    interp: Interp
+    rule: Inst
+    config0: Inst
+    config_field: str
+    queries: list
+    verdicts: list
+    other_raises: list
+    violations: Inst | None
+    matcher: Inst | None
+    detector: Inst | None
+    behavior_new: list  # constructor events of the behaviour requirement
+    modreq_new: list  # constructor events of the module requirement (in order: as specified by the rule, converted)
+    result: object = None
+
+
+def _assume(atom_text: str) -> bool | None:
+    return None
+
+
+def simple_helper(f: FuncInfo) -> bool:
+    """A small pure helper (if / return / local assignments only, no loops, no handlers): predicates and converters such as
+    `is_sub_module_of(a, b)` are followed wherever they live, so that moving an expression into a shared helper changes nothing."""
+    if isinstance(f.node, ast.Lambda):
+        return True
+    if f.is_abstract or f.name.startswith("__"):
+        return False
+    n_stmts = 0
+    for n in own_nodes(f.node):
+        if isinstance(n, (ast.For, ast.AsyncFor, ast.While, ast.Try, ast.With, ast.AsyncWith, ast.Match, ast.Yield, ast.YieldFrom, ast.Await, ast.Global, ast.Nonlocal, ast.Delete, ast.AugAssign, ast.ListComp, ast.SetComp, ast.DictComp, ast.GeneratorExp)):
+            return False
+        if isinstance(n, ast.Assign) and not all(isinstance(t, ast.Name) for t in n.targets):
+            return False
+        if isinstance(n, ast.stmt):
+            n_stmts += 1
+    return n_stmts <= 12
+
+
+# The pipeline is followed through every repo function *except* across these boundaries: the graph layer (whose calls are the
+# events the rules are about), the scanning front end, and the rendering of messages / diagrams (never on a verdict's path).
+OPAQUE_PREFIXES = (
+    "pytestarch.eval_structure.", "pytestarch.eval_structure_generation.", "pytestarch.rule_assessment.error_message.",
+    "pytestarch.diagram_extension.", "pytestarch.pytestarch",
+)
+
+
+def _opaque_module(name: str) -> bool:
+    return any(name.startswith(p) or name == p.rstrip(".") for p in OPAQUE_PREFIXES)
+
+
+def descend_pipeline(f: FuncInfo) -> bool:
+    top = f
+    while top.outer is not None:
+        top = top.outer
+    if not _opaque_module(top.module.name):
+        return True
+    return f.outer is None and (f.cls is None or f.is_staticmethod) and simple_helper(f)
+
+
+def _scenario_interp(repo: Repo) -> Interp:
+    return Interp(repo, descend_pipeline, assume={"bool(S)": True, "bool(O)": True, "bool(evaluable)": True})
+
+
+def _rule_class(repo: Repo) -> ClassInfo:
+    return repo.cls(RULE, "Rule")
+
+
+def _find_config(rule: Inst) -> tuple[str, Inst]:
+    """The configuration object of a Rule: the dataclass instance among its fields that carries the verb flags."""
+    for name, v in rule.fields.items():
+        if isinstance(v, Inst) and {"should", "should_only", "should_not", "except_present", "import_"} <= set(v.fields):
+            return name, v
+    raise AnalysisError("Rule() builds no configuration object with the fields should / should_only / should_not / except_present / import_")
+
+
+def run_scenario(repo: Repo, sc: Scenario) -> Run:
+    cache = repo.__dict__.setdefault("_c01_runs", {})
+    key = (sc.verb, sc.exc, sc.import_, sc.anything, sc.symbolic_verbs)
+    if key in cache:
+        return cache[key]
+    I = _scenario_interp(repo)
+    rule = I.instantiate(_rule_class(repo), [], {}, None, None)
+    if not isinstance(rule, Inst):
+        raise AnalysisError("Rule() could not be instantiated by the interpreter")
+    cfg_name, cfg = _find_config(rule)
+    for v in VERBS:
+        if sc.symbolic_verbs and v != sc.verb:
+            cfg.fields[v] = BoolF(atom(f"cfg.{v}"))
+        else:
+            cfg.fields[v] = Const(v == sc.verb)
+    cfg.fields["except_present"] = BoolF(atom("cfg.except_present")) if sc.symbolic_verbs else Const(sc.exc)
+    cfg.fields["import_"] = Const(sc.import_)
+    if "rule_object_anything" in cfg.fields:
+        cfg.fields["rule_object_anything"] = Const(sc.anything)
+    elif sc.anything:
+        raise AnalysisError("the rule configuration has no rule_object_anything flag")
+    cfg.fields["modules_to_check"] = Sym(("root", "S"), "list")
+    cfg.fields["modules_to_check_against"] = Const(None) if sc.anything else Sym(("root", "O"), "list")
+    # collections that are derived from the (non-empty) subjects / objects only are non-empty
+    orig_truth = I.truth
+
+    def truth(v):
+        if isinstance(v, Coll) and v.entries and roots_of(v) and roots_of(v) <= {"S", "O"}:
+            return TRUE
+        return orig_truth(v)
+
+    I.truth = truth  # type: ignore[method-assign]
+    ev = Sym(("root", "evaluable"), EVALUABLE_CLS)
+    result = I.call_method(rule, "assert_applies", [ev])
+    queries = [e for e in I.events if e.kind == "call" and e.name in QUERIES and e.recv is not None and roots_of(e.recv) == {"evaluable"}]
+    raises = [e for e in I.events if e.kind == "raise"]
+    verdicts = [e for e in raises if e.name == "AssertionError"]
+    # the objects of the evaluation, found by role: the detector is the object answering `get_rule_violation`, the violations
+    # object is what that call returns, the matcher is the object whose class holds the call sites of the graph questions
+    detectors = [i for i in I.instances if repo.lookup_method(i.cls, "get_rule_violation") is not None]
+    viols = []
+    if detectors:
+        grv = repo.lookup_method(detectors[-1].cls, "get_rule_violation")
+        for _env, res_, _fr in I.frames_of.get(grv.fq, []):
+            viols += [o for _g, o in (res_.options if isinstance(res_, Alt) else [(TRUE, res_)]) if isinstance(o, Inst)]
+    if not viols:
+        viol_cls = repo.modules.get(VIOLATIONS) and repo.module(VIOLATIONS).classes.get("RuleViolations")
+        viols = [i for i in I.instances if i.cls is viol_cls]
+    site_classes = {q.fi.cls.fq for q in queries if q.fi is not None and q.fi.cls is not None}
+    matchers = [i for i in I.instances if any(c.fq in site_classes for c in repo.mro(i.cls))] or [i for i in I.instances if i.cls.module.name == MATCHER]
+    beh, modreq = _requirement_events(repo, I, rule)
+    run = Run(
+        sc, I, rule, cfg, cfg_name, queries, verdicts, [e for e in raises if e.name != "AssertionError"],
+        viols[-1] if viols else None, matchers[-1] if matchers else None, detectors[-1] if detectors else None,
+        beh, modreq, result,
+    )
+    cache[key] = run
+    return run
+
+
+def run_twice(repo: Repo, sc: Scenario) -> tuple[Run, list]:
+    """The same rule object evaluated a second time against another evaluable: (first run, query events of the second evaluation)."""
+    cache = repo.__dict__.setdefault("_c01_twice", {})
+    key = (sc.verb, sc.exc, sc.import_)
+    if key in cache:
+        return cache[key]
+    saved = repo.__dict__.get("_c01_runs", {}).pop((sc.verb, sc.exc, sc.import_, sc.anything, sc.symbolic_verbs), None)
+    run = run_scenario(repo, sc)  # a private run: its rule object is evaluated twice
+    repo.__dict__["_c01_runs"].pop((sc.verb, sc.exc, sc.import_, sc.anything, sc.symbolic_verbs), None)
+    if saved is not None:
+        repo.__dict__["_c01_runs"][(sc.verb, sc.exc, sc.import_, sc.anything, sc.symbolic_verbs)] = saved
+    I = run.interp
+    n = len(I.events)
+    I.path.clear()
+    I.call_method(run.rule, "assert_applies", [Sym(("root", "evaluable2"), EVALUABLE_CLS)])
+    second = [e for e in I.events[n:] if e.kind == "call" and e.name in QUERIES]
+    cache[key] = (run, second)
+    return cache[key]
+
+
+def bound_args(repo: Repo, ev: Event, params: list[str] | None = None) -> list:
+    """Arguments of a recorded constructor / method call in parameter order (keywords bound to their parameters)."""
+    if params is None:
+        target = None
+        if ev.kind == "new" and isinstance(ev.result, Inst):
+            target = repo.lookup_method(ev.result.cls, "__init__")
+            params = target.param_names[1:] if target is not None else list(_dataclass_fields(repo, ev.result.cls))
+        elif ev.callee is not None:
+            params = ev.callee.param_names[1:] if ev.callee.cls is not None and not ev.callee.is_staticmethod else ev.callee.param_names
+        else:
+            ci = repo.classes.get(EVALUABLE_CLS)
+            m = repo.lookup_method(ci, ev.name) if ci is not None else None
+            params = m.param_names[1:] if m is not None else []
+    out = list(ev.args)
+    for p in params[len(out):]:
+        if p in ev.kwargs:
+            out.append(ev.kwargs[p])
+        else:
+            break
+    return out
+
+
+def _dataclass_fields(repo: Repo, ci: ClassInfo) -> list[str]:
+    names: list[str] = []
+    for c in reversed(repo.mro(ci)):
+        for n in c.ann_attrs:
+            if n not in names:
+                names.append(n)
+    return names
+
+
+def _requirement_events(repo: Repo, I: Interp, rule: Inst) -> tuple[list, list]:
+    """Constructor events of the two requirement classes, found by role among the objects the Rule class itself builds during
+    assert_applies: the *behaviour* requirement is the one built from boolean flags only, the *module* requirement the one built
+    from the rule's subjects / objects.  (All later constructions of the same classes are returned as well, in order.)"""
+    news = [e for e in I.events if e.kind == "new" and isinstance(e.result, Inst)]
+    by_rule = [e for e in news if e.fi is not None and e.fi.cls is not None and any(c.fq == e.fi.cls.fq for c in repo.mro(rule.cls))]
+    beh_cls = mod_cls = None
+    for e in by_rule:
+        args = bound_args(repo, e)
+        if not args:
+            continue
+        if beh_cls is None and len(args) >= 3 and all(isinstance(a, BoolF) or (isinstance(a, Const) and isinstance(a.value, bool)) for a in args):
+            beh_cls = e.result.cls
+        elif mod_cls is None and any(roots_of(a) & {"S", "O"} for a in args) and not {"should", "should_only", "should_not"} <= set(e.result.fields):
+            mod_cls = e.result.cls
+    if beh_cls is None:
+        beh_cls = repo.modules.get(BEHAVIOR) and repo.module(BEHAVIOR).classes.get("BehaviorRequirement")
+    if mod_cls is None:
+        mod_cls = repo.modules.get(MODREQ) and repo.module(MODREQ).classes.get("ModuleRequirement")
+    return [e for e in news if e.result.cls is beh_cls], [e for e in news if e.result.cls is mod_cls]
+
+
+def legal_scenarios() -> list[Scenario]:
+    return [Scenario(v, e, imp) for v, e in LEGAL_POINTS for imp in (True, False)]
+
+
+def alias_scenarios() -> list[Scenario]:
+    return [Scenario("should_not", False, imp, anything=True, symbolic_verbs=True) for imp in (True, False)]
+
+
+def asked_kinds(run: Run) -> set[str]:
+    return {"explicit" if q.name == EXPLICIT_QUERY else "other" for q in run.queries if q.guard != FALSE}
+
+
+# --------------------------------------------------------------------------- classification of violation buckets
+
+
+@dataclass
+class Group:
+    kind: str  # elem | key | keyobj | other
+    base: tuple | None  # term of the query result the element derives from
+    iter: int | None
+    guard: Formula
+    shapes: set
+    sample: str
+
+
+@dataclass
+class BucketValue:
+    field: str
+    groups: list
+    source: str | None = None  # explicit | other | mixed | None (empty)
+    mode: str | None = None  # present | absent | mixed | unknown | None (empty)
+    gran: str | None = None  # per-pair | filtered | per-key | joint
+    detail: str = ""
+    undecided: str = ""  # non-empty: the interpreter met a construct it does not model on the way to this bucket
+
+    @property
+    def empty(self) -> bool:
+        return not self.groups
+
+
+def _data_of(t) -> tuple | None:
+    if not isinstance(t, tuple) or not t:
+        return None
+    if t[0] == "key" and len(t) == 3:
+        return ("key", t[1], t[2])
+    if t[0] == "elem" and len(t) == 3 and isinstance(t[1], tuple) and t[1] and t[1][0] == "val":
+        return ("elem", t[1][1], t[1][2])
+    if t[0] == "val" and len(t) == 3:
+        return ("val", t[1], t[2])
+    return None
+
+
+def _normalise(v) -> tuple:
+    """(kind, base term, iteration id, shape) of one element added to a bucket."""
+    if isinstance(v, Alt):
+        parts = [_normalise(o) for _g, o in v.options]
+        kinds = {(p[0], p[1], p[2]) for p in parts}
+        if len(kinds) == 1:
+            return (*parts[0][:3], "|".join(sorted({p[3] for p in parts})))
+        return ("other", None, None, show_term(term_of(v))[:120])
+    t = term_of(v)
+    flips = 0
+    while isinstance(t, tuple) and len(t) == 2 and t[0] in ("copy", "reversed"):
+        flips += t[0] == "reversed"
+        t = t[1]
+    d = _data_of(t)
+    if d is not None and d[0] in ("key", "elem"):
+        return (d[0], d[1], d[2], "swapped" if flips % 2 else "as-is")
+    if t[0] == "tuple" and len(t) == 3:
+        comps = t[1:]
+        idx = []
+        for c in comps:
+            if isinstance(c, tuple) and c and c[0] == "index" and _data_of(c[1]) is not None and c[2] in (("const", "0"), ("const", "1")):
+                idx.append((_data_of(c[1]), c[2][1]))
+            else:
+                idx.append(None)
+        if idx[0] is not None and idx[1] is not None and idx[0][0] == idx[1][0] and {idx[0][1], idx[1][1]} == {"0", "1"} and idx[0][0][0] in ("key", "elem"):
+            d = idx[0][0]
+            return (d[0], d[1], d[2], "as-is" if idx[0][1] == "0" else "swapped")
+        ds = [_data_of(c) for c in comps]
+        for i in (0, 1):
+            d, other = ds[i], comps[1 - i]
+            if d is not None and d[0] == "key" and not any(_data_of(st) is not None and _data_of(st)[1] == d[1] for st in subterms(other)):
+                return ("keyobj", d[1], d[2], "key-first" if i == 0 else "key-second")
+    return ("other", None, None, show_term(t)[:120])
+
+
+def _query_of(base) -> str | None:
+    """Name of the graph question whose answer a data term is (a sub-term `call(<query>, evaluable, ...)`), or a positional stand-in."""
+    for st in subterms(base):
+        if isinstance(st, tuple) and len(st) >= 2 and st[0] == "call" and st[1] in QUERIES:
+            return st[1]
+        if isinstance(st, tuple) and len(st) == 2 and st[0] == "root" and str(st[1]).startswith("DATA"):
+            return st[1]
+    return None
+
+
+def _iteration_facts(guard: Formula, base, atom_info: dict | None) -> tuple[dict, Formula]:
+    """What holding an element of a symbolic iteration implies: the iterated query result is non-empty, and a collection one of
+    whose add-events fired (for this very element) is non-empty.  Returns (atoms to assume, constraints)."""
+    assume: dict = {}
+    cons = []
+    if base is not None:
+        assume[f"bool({show_term(base)})"] = True
+    for a in atoms_of(guard):
+        info = (atom_info or {}).get(a) or {}
+        if info.get("kind") == "nonempty" and info.get("witnesses"):
+            cons.append(f_or([f_not(f_or(list(info["witnesses"]))), atom(a)]))
+    return assume, f_and(cons)
+
+
+def classify_bucket(field: str, value, source_of: dict | None = None, atom_info: dict | None = None) -> BucketValue:
+    """Judging mode of one violation bucket from the add-events the interpreter recorded for it."""
+    bv = BucketValue(field, [])
+    if isinstance(value, Alt):
+        # a bucket that is one of several collections, depending on data: merge the alternatives' events
+        merged = Coll("set", [], 0)
+        for g, o in value.options:
+            if isinstance(o, Coll):
+                merged.entries += [(x, f_and([g, gx])) for x, gx in o.entries]
+            else:
+                bv.mode, bv.detail = "unknown", f"bucket value is not a collection: {show_term(term_of(o))[:80]}"
+                return bv
+        value = merged
+    if not isinstance(value, Coll):
+        if isinstance(value, Sym) and value.term[0] == "copy":
+            pass
+        bv.mode, bv.detail = "unknown", f"bucket value is not a collection built by the detector: {show_term(term_of(value))[:80]}"
+        return bv
+    groups: dict = {}
+    for x, g in value.entries:
+        if g == FALSE:
+            continue
+        kind, base, it, shape = _normalise(x)
+        k = (kind, base, it)
+        if k not in groups:
+            groups[k] = Group(kind, base, it, g, {shape}, show_term(term_of(x))[:100])
+        else:
+            groups[k].guard = f_or([groups[k].guard, g])
+            groups[k].shapes.add(shape)
+    bv.groups = list(groups.values())
+    if not bv.groups:
+        return bv
+    modes, sources, grans, details = set(), set(), set(), []
+    for gr in bv.groups:
+        t = tainted(gr.guard)
+        if t:
+            bv.undecided = f"{field}: the guard of an add-event depends on a construct the interpreter does not model ({', '.join(t)})"
+        q = _query_of(gr.base) if gr.base is not None else None
+        src = None
+        if q is not None:
+            src = (source_of or {}).get(q) or ("explicit" if q == EXPLICIT_QUERY else "other" if q in OTHER_QUERIES else None)
+        sources.add(src)
+        val_atom = f"val@{gr.iter}"
+        assume, cons = _iteration_facts(gr.guard, gr.base, atom_info)
+        gr.guard = assign_atoms(gr.guard, assume)
+        cons = assign_atoms(cons, assume)
+        if gr.kind == "elem":
+            modes.add("present")
+            g2 = assign_atoms(gr.guard, {val_atom: True})
+            if _is_true(g2, assign_atoms(cons, {val_atom: True})):
+                grans.add("per-pair")
+            else:
+                grans.add("filtered")
+                details.append(f"realised pairs are only reported under `{show(g2)}`")
+        elif gr.kind in ("key", "keyobj"):
+            modes.add("absent")
+            if _equiv(gr.guard, f_not(atom(val_atom)), cons):
+                grans.add("per-key")
+            else:
+                grans.add("joint")
+                details.append(f"a key is reported under `{show(gr.guard)}` instead of exactly when its own list of realisations is empty")
+        else:
+            modes.add("unknown")
+            details.append(f"element `{gr.sample}` derives neither from the keys nor from the realisations of a query result")
+    bv.mode = next(iter(modes)) if len(modes) == 1 else "mixed"
+    bv.source = next(iter(sources)) if len(sources) == 1 else "mixed"
+    bv.gran = next(iter(grans)) if len(grans) == 1 else ("joint" if "joint" in grans else "filtered" if "filtered" in grans else None)
+    bv.detail = "; ".join(details)
+    return bv
+
+
+def _is_true(f: Formula, constraints: Formula = TRUE) -> bool:
+    from core.guards import implies as _imp
+
+    try:
+        return _imp(TRUE, f, constraints)
+    except AnalysisError:
+        return False
+
+
+def _equiv(a: Formula, b: Formula, constraints: Formula = TRUE) -> bool:
+    from core.guards import equivalent as _eq
+
+    try:
+        return _eq(a, b, constraints)
+    except AnalysisError:
+        return False
+
+
+def buckets_of(viol: Inst | None, source_of: dict | None = None, atom_info: dict | None = None) -> dict:
+    if viol is None:
+        return {}
+    return {f: classify_bucket(f, v, source_of, atom_info) for f, v in viol.fields.items()}
+
+
+def active_set(buckets: dict) -> set:
+    return {(b.source, b.mode) for b in buckets.values() if not b.empty}
+
+
+# --------------------------------------------------------------------------- what the detector would judge, were all data available
+
+
+def data_param_sources(repo: Repo) -> dict:
+    """'DATA<i>' -> explicit | other: which query's answer the matcher passes as i-th argument of get_rule_violation."""
+    cache = repo.__dict__.setdefault("_c01_misc", {})
+    if "dps" in cache:
+        return cache["dps"]
+    seen: dict = {}
+    grv = None
+    for sc in legal_scenarios():
+        run = run_scenario(repo, sc)
+        if run.detector is None:
+            continue
+        grv = repo.lookup_method(run.detector.cls, "get_rule_violation")
+        for env, _res, _fr in run.interp.frames_of.get(grv.fq, []) if grv else []:
+            for i, p in enumerate(grv.param_names[1:]):
+                q = _query_of(term_of(env[p]))
+                if q in QUERIES:
+                    seen.setdefault(f"DATA{i}", set()).add("explicit" if q == EXPLICIT_QUERY else "other")
+    out = {}
+    for k, v in seen.items():
+        if len(v) != 1:
+            raise AnalysisError(f"argument {k} of get_rule_violation derives from the answers of {sorted(v)} (expected exactly one query)")
+        out[k] = next(iter(v))
+    if sorted(out.values()) != ["explicit", "other"]:
+        raise AnalysisError(f"the matcher does not pass the answers of the explicit and the 'other' question to get_rule_violation (found {out})")
+    cache["dps"] = out
+    return out
+
+
+def demand_run(repo: Repo, sc: Scenario) -> dict:
+    """Buckets of the detector at one configuration point when *both* query results are available (T2 / T3 / C12)."""
+    cache = repo.__dict__.setdefault("_c01_demand", {})
+    key = (sc.verb, sc.exc, sc.import_)
+    if key in cache:
+        return cache[key]
+    run = run_scenario(repo, sc)
+    if run.detector is None:
+        # the evaluation of this (legal) rule shape never reaches a detector (it raises before): nothing is judged
+        viol = repo.cls(VIOLATIONS, "RuleViolations")  # (fallback by name: no evaluated rule shows the class)
+        cache[key] = {f: BucketValue(f, []) for f in viol.ann_attrs}
+        return cache[key]
+    grv = repo.lookup_method(run.detector.cls, "get_rule_violation")
+    n = len(grv.param_names) - 1
+    args = [Sym(("root", f"DATA{i}"), "dict") for i in range(n)]
+    before = len(run.interp.instances)
+    res = run.interp.call_method(run.detector, "get_rule_violation", args)
+    inst = res if isinstance(res, Inst) else next((o for _g, o in (res.options if isinstance(res, Alt) else []) if isinstance(o, Inst)), None)
+    if inst is None:
+        raise AnalysisError(f"{grv.fq} does not return a violations object at '{sc.name}'")
+    out = buckets_of(inst, data_param_sources(repo), run.interp.atom_info)
+    cache[key] = out
+    return out
+
+
+# --------------------------------------------------------------------------- compatibility layer: formulas over the configuration atoms
+
+
+def _pretty(table: dict) -> Formula:
+    """A small formula over ATOMS that is true exactly at the legal points listed as true in `table` ({(verb, exc): bool})."""
+    lits = [atom(a) for a in ATOMS] + [f_not(atom(a)) for a in ATOMS]
+    cands = [TRUE, FALSE, *lits]
+    cands += [f_and([a, b]) for i, a in enumerate(lits) for b in lits[i + 1:]]
+    cands += [f_or([a, b]) for i, a in enumerate(lits) for b in lits[i + 1:]]
+    cands += [f_or([a, b]) for i, a in enumerate(cands[10:38]) for b in cands[10 + i + 1:38]]
+    for c in cands:
+        if all(evaluate(c, point_env(v, e)) == table[(v, e)] for v, e in LEGAL_POINTS):
+            return c
+    return f_or([f_and([atom(v), atom("except_present") if e else f_not(atom("except_present"))]) for (v, e), on in table.items() if on])
 
 
 class Inliner:
-    """Rewrites boolean expressions over requirement objects into formulas over the four rule-configuration atoms."""
+    """Rewrites boolean expressions over requirement objects into formulas over the four rule-configuration atoms.
+
+    (Kept for C03 / C05 / C13.)  Expressions are evaluated by the abstract interpreter with a behaviour requirement whose four
+    constructor arguments are the atoms should / should_only / should_not / except_present: properties with early returns,
+    conditional expressions, private helper properties and local aliases are all followed.
+    """
 
     def __init__(self, repo: Repo) -> None:
         self.repo = repo
         self.T = types_of(repo)
-        self.behavior = repo.cls(BEHAVIOR, "BehaviorRequirement")
-        self.roles = self._behavior_field_roles()
+        probe = run_scenario(repo, Scenario("should", False, True))
+        self.behavior = probe.behavior_new[0].result.cls if probe.behavior_new else repo.cls(BEHAVIOR, "BehaviorRequirement")
+        self._interp = Interp(repo, descend_pipeline)
+        self._role_of_param = self._ctor_roles()
+        init = repo.lookup_method(self.behavior, "__init__")
+        params = init.param_names[1:] if init is not None else list(self.behavior.ann_attrs)
+        kwargs = {p: BoolF(atom(self._role_of_param[p])) for p in params if p in self._role_of_param}
+        saved = list(self._interp.events)
+        self._br = self._interp.instantiate(self.behavior, [], kwargs, None, None)
+        del self._interp.events[len(saved):]
+        self._interp.path.clear()
+        self.roles = {}
+        if isinstance(self._br, Inst):
+            for f, v in self._br.fields.items():
+                if isinstance(v, BoolF) and v.f[0] == "atom" and v.f[1] in ATOMS:
+                    self.roles[f] = v.f[1]
+        if set(self.roles.values()) < set(ATOMS):
+            raise AnalysisError(f"BehaviorRequirement fields do not cover the configuration atoms: {self.roles}")
+        self._interp.stand_in = {self.behavior.fq: self._br}  # type: ignore[attr-defined]
 
-    def _behavior_field_roles(self) -> dict[str, str]:
-        """BehaviorRequirement field -> rule configuration field, derived from the constructor call in Rule."""
-        init = self.behavior.methods.get("__init__")
-        if init is None:
-            raise AnalysisError("BehaviorRequirement.__init__ not found")
-        param_of_field: dict[str, str] = {}
-        for n in own_nodes(init.node):
-            if isinstance(n, ast.Assign) and isinstance(n.value, ast.Name) and n.value.id in init.param_names:
-                for t in n.targets:
-                    if isinstance(t, ast.Attribute) and dotted(t.value) == "self":
-                        param_of_field[t.attr] = n.value.id
-        # constructor call site(s)
-        role_of_param: dict[str, str] = {}
-        sites = 0
-        for f in self.repo.module(RULE).all_funcs:
-            for call in calls_in(f.node):
-                ci = self.T.ctor_class(f, call)
-                if ci is not None and ci.fq == self.behavior.fq:
-                    sites += 1
-                    params = init.param_names[1:]
-                    for i, a in enumerate(call.args):
-                        if i < len(params) and isinstance(a, ast.Attribute):
-                            role_of_param[params[i]] = a.attr
-                    for k in call.keywords:
-                        if k.arg and isinstance(k.value, ast.Attribute):
-                            role_of_param[k.arg] = k.value.attr
-        if sites != 1:
-            raise AnalysisError(f"expected exactly one BehaviorRequirement construction in rule.py, found {sites}")
-        roles = {fld: role_of_param.get(p, p) for fld, p in param_of_field.items()}
-        if set(roles.values()) < set(ATOMS):
-            raise AnalysisError(f"BehaviorRequirement fields do not cover the configuration atoms: {roles}")
+    def _ctor_roles(self) -> dict[str, str]:
+        """Constructor parameter of the behaviour requirement -> configuration atom, read off four evaluated rules."""
+        init = self.repo.lookup_method(self.behavior, "__init__")
+        params = init.param_names[1:] if init is not None else list(self.behavior.ann_attrs)
+        roles: dict[str, str] = {}
+        probes = [("should", False, "should"), ("should_only", False, "should_only"), ("should_not", False, "should_not")]
+        vals: dict[tuple, list] = {}
+        for verb, exc in [(p[0], p[1]) for p in probes] + [("should", True)]:
+            run = run_scenario(self.repo, Scenario(verb, exc, True))
+            if len(run.behavior_new) != 1:
+                raise AnalysisError(f"expected exactly one BehaviorRequirement construction per evaluated rule, found {len(run.behavior_new)}")
+            e = run.behavior_new[0]
+            bound = dict(zip(params, bound_args(self.repo, e, params)))
+            vals[(verb, exc)] = [bound.get(p) for p in params]
+        for i, p in enumerate(params):
+            col = {k: (isinstance(v[i], Const) and v[i].value is True) for k, v in vals.items()}
+            for verb, _e, role in probes:
+                if col[(verb, False)] and not any(col[(o, False)] for o in VERBS if o != verb):
+                    roles[p] = role
+            if col[("should", True)] and not col[("should", False)]:
+                roles[p] = "except_present"
+        if sorted(roles.values()) != sorted(ATOMS):
+            raise AnalysisError(f"BehaviorRequirement is not constructed from (should, should_only, should_not, except_present): {roles}")
         return roles
 
-    def formula(self, fi: FuncInfo, e: ast.expr, depth: int = 0) -> Formula:
-        def subst(x: ast.expr) -> Formula | None:
-            if depth > 6:
-                return None
-            if isinstance(x, ast.Attribute):
-                bt = self.T.expr(fi, x.value)
-                for m in members(bt):
-                    if m[0] == "cls" and m[1] == self.behavior.fq:
-                        meth = self.repo.lookup_method(self.behavior, x.attr)
-                        if meth is not None and meth.is_property:
-                            rets = [s for s in meth.body if isinstance(s, ast.Return)]
-                            body = [s for s in meth.body if not (isinstance(s, ast.Expr) and isinstance(s.value, ast.Constant))]
-                            if len(body) == 1 and len(rets) == 1 and rets[0].value is not None:
-                                return self.formula(meth, rets[0].value, depth + 1)
-                            raise AnalysisError(f"{meth.fq}: property is not a single return expression (cannot inline)")
-                        if x.attr in self.roles:
-                            return atom(self.roles[x.attr])
-            return None
+    def _frame(self, fi: FuncInfo):
+        from .absint import Frame
 
-        return to_formula(e, subst)
+        I = self._interp
+        env: dict = {}
+        selfv = None
+        base = getattr(fi, "base", fi)
+        if base.cls is not None and base.outer is None and not base.is_staticmethod and base.param_names:
+            if any(c.fq == self.behavior.fq for c in self.repo.mro(base.cls)):
+                selfv = self._br
+            else:
+                selfv = Sym(("self",), base.cls.fq)
+            env[base.param_names[0]] = selfv
+        for p in base.params:
+            if p.arg in env:
+                continue
+            t = self.T.param_type(base, p.arg)
+            env[p.arg] = Sym(("param", p.arg), t[1] if t and t[0] == "cls" else None)
+        fr = Frame(fi, env, selfv, None, 0)
+        # single-assignment locals (copy propagation): evaluated in statement order, control flow ignored
+        counts: dict[str, int] = {}
+        for n in own_nodes(fi.node):
+            if isinstance(n, ast.Name) and isinstance(n.ctx, ast.Store):
+                counts[n.id] = counts.get(n.id, 0) + 1
+        for n in own_nodes(fi.node):
+            if isinstance(n, ast.Assign) and len(n.targets) == 1 and isinstance(n.targets[0], ast.Name) and counts.get(n.targets[0].id) == 1 and n.targets[0].id not in env:
+                if not any(isinstance(a, (ast.For, ast.While, ast.comprehension)) for a in _ancestors(n, fi.node)):
+                    saved = len(I.events)
+                    env[n.targets[0].id] = I.eval(n.value, fr)
+                    del I.events[saved:]
+        return fr
+
+    def formula(self, fi: FuncInfo, e: ast.expr, depth: int = 0) -> Formula:
+        I = self._interp
+        I.path.clear()
+        saved = len(I.events)
+        f = I.truth_expr(e, self._frame(fi))
+        del I.events[saved:]
+        return _rename_atoms(f)
 
     def conds(self, fi: FuncInfo, node: ast.AST) -> Formula:
+        base = getattr(fi, "base", fi)
+        if isinstance(node, ast.Raise) and base is fi and fi.cls is not None and any(c.fq == self.behavior.fq for c in self.repo.mro(fi.cls)) and not fi.is_staticmethod:
+            # a raise inside a method of the behaviour requirement: the condition under which the interpreted method reaches it
+            # (loops over tuples of checks, helper methods and locals are followed)
+            I = self._interp
+            I.path.clear()
+            saved = len(I.events)
+            I.invoke(fi, self._br, [], {}, None, None, None)
+            evs = [x for x in I.events[saved:] if x.kind == "raise" and x.node is node]
+            del I.events[saved:]
+            I.pending.clear()
+            if evs:
+                return f_or([x.guard for x in evs])
         return f_and([self.formula(fi, e) if pol else f_not(self.formula(fi, e)) for e, pol in conds(fi, node)])
+
+    def raise_formula(self, fi: FuncInfo) -> Formula:
+        """Condition (over the configuration atoms) under which a method of the behaviour requirement raises; loops,
+        tuples of checks and helper methods are followed by the interpreter."""
+        I = self._interp
+        I.path.clear()
+        saved = len(I.events)
+        I.invoke(fi, self._br, [], {}, None, None, None)
+        evs = [x for x in I.events[saved:] if x.kind == "raise"]
+        del I.events[saved:]
+        I.pending.clear()
+        return _rename_atoms(f_or([x.guard for x in evs]))
+
+
+def _ancestors(n: ast.AST, stop: ast.AST):
+    p = parent(n)
+    while p is not None and p is not stop:
+        yield p
+        p = parent(p)
+
+
+def _rename_atoms(f: Formula) -> Formula:
+    return f
 
 
 def restrict(f: Formula) -> Formula:
@@ -224,56 +825,29 @@ class Issue:
     method: str
 
 
-def issuing_conditions(repo: Repo, inl: Inliner) -> list[Issue]:
-    matcher = repo.cls(MATCHER, "RuleMatcher")
-    out: list[Issue] = []
-    for m in matcher.methods.values():
-        for n in own_nodes(m.node):
-            if isinstance(n, ast.Attribute) and isinstance(n.ctx, ast.Load) and n.attr in (EXPLICIT_QUERY, *OTHER_QUERIES):
-                bt = inl.T.expr(m, n.value)
-                # the receiver must be the evaluable (Protocol EvaluableArchitecture)
-                if not any(mm[0] == "cls" and mm[1].endswith("EvaluableArchitecture") for mm in members(bt)):
-                    continue
-                kind = "explicit" if n.attr == EXPLICIT_QUERY else "other"
-                # the question is issued where the bound method is *called*: directly, or through a local alias
-                p = parent(n)
-                if isinstance(p, ast.Call) and p.func is n:
-                    f = inl.conds(m, p)
-                    out.append(Issue(kind, m, p, f, n.attr))
-                else:
-                    st = stmt_of(n)
-                    if not (isinstance(st, ast.Assign) and len(st.targets) == 1 and isinstance(st.targets[0], ast.Name)):
-                        raise AnalysisError(f"{m.fq}: query method `{n.attr}` used in an unrecognised way: {norm(st)}")
-                    alias = st.targets[0].id
-                    calls = [c for c in calls_in(m.node) if isinstance(c.func, ast.Name) and c.func.id == alias]
-                    if not calls:
-                        raise AnalysisError(f"{m.fq}: alias {alias} of query method is never called")
-                    for c in calls:
-                        f = f_and([inl.conds(m, c), inl.conds(m, st)])
-                        out.append(Issue(kind, m, c, f, n.attr))
+def issuing_conditions(repo: Repo, inl: "Inliner | None" = None) -> list[Issue]:
+    """One Issue per call site of a graph question; `formula` is true exactly at the legal points (either direction) at which the
+    interpreted rule evaluation reaches that call site."""
+    sites: dict = {}
+    for sc in legal_scenarios():
+        run = run_scenario(repo, sc)
+        for q in run.queries:
+            if q.guard == FALSE:
+                continue
+            k = (id(q.node), q.name)
+            sites.setdefault(k, {"ev": q, "points": set()})["points"].add((sc.verb, sc.exc))
+    out = []
+    for (_nid, name), d in sites.items():
+        ev = d["ev"]
+        table = {p: (p in d["points"]) for p in LEGAL_POINTS}
+        out.append(Issue("explicit" if name == EXPLICIT_QUERY else "other", ev.fi, ev.node, _pretty(table), name))
     if not any(i.kind == "explicit" for i in out) or not any(i.kind == "other" for i in out):
-        raise AnalysisError("RuleMatcher: the call sites of the graph queries were not found")
+        raise AnalysisError("no evaluated rule reaches a call of the graph queries (get_dependencies / any_...): the call sites of the graph questions were not found")
     return out
 
 
-def strip_non_config(f: Formula) -> Formula:
-    """Existentially drop atoms that are not configuration atoms (e.g. direction flags), keeping satisfiability per point."""
-    return f
-
-
 def asked_at(issues: list[Issue], kind: str, env: dict[str, bool]) -> bool:
-    for i in issues:
-        if i.kind != kind:
-            continue
-        extra = sorted(atoms_of(i.formula) - set(ATOMS))
-        import itertools
-
-        for vals in itertools.product([False, True], repeat=len(extra)):
-            e = dict(env)
-            e.update(dict(zip(extra, vals)))
-            if evaluate(i.formula, e):
-                return True
-    return False
+    return any(i.kind == kind and evaluate(i.formula, env) for i in issues)
 
 
 # --------------------------------------------------------------------------- T2: bucket wiring
@@ -285,95 +859,127 @@ class Bucket:
     method: str
     flag: Formula
     source: str  # explicit | other
-    call: ast.Call
+    call: ast.Call | None
 
 
-def bucket_wiring(repo: Repo, inl: Inliner) -> tuple[FuncInfo, list[Bucket]]:
-    base = repo.cls(DETECTOR, "RuleViolationBaseDetector")
-    viol = repo.cls(VIOLATIONS, "RuleViolations")
-    grv = None
-    ctor = None
-    for m in base.methods.values():
-        for call in calls_in(m.node):
-            ci = inl.T.ctor_class(m, call)
-            if ci is not None and ci.fq == viol.fq:
-                grv, ctor = m, call
+def plain_detector_class(repo: Repo) -> ClassInfo:
+    """Class of the detector a module rule is judged by (built by the default matcher during an evaluated rule)."""
+    run = run_scenario(repo, Scenario("should", False, True))
+    if run.detector is not None:
+        return run.detector.cls
+    return repo.cls(DETECTOR, "RuleViolationDetector")
+
+
+def violations_class(repo: Repo) -> ClassInfo:
+    run = run_scenario(repo, Scenario("should", False, True))
+    if run.violations is not None:
+        return run.violations.cls
+    return repo.cls(VIOLATIONS, "RuleViolations")
+
+
+def _grv(repo: Repo) -> FuncInfo:
+    grv = repo.lookup_method(plain_detector_class(repo), "get_rule_violation")
     if grv is None:
-        raise AnalysisError("no construction of RuleViolations found in RuleViolationBaseDetector")
-    # expectation flags: local = self.<fn>() returning Ctor(kw=expr)
-    flag_exprs: dict[tuple[str, str], tuple[FuncInfo, ast.expr]] = {}
-    for n in own_nodes(grv.node):
-        if isinstance(n, ast.Assign) and len(n.targets) == 1 and isinstance(n.targets[0], ast.Name) and isinstance(n.value, ast.Call):
-            cs, _ = inl.T.callees(grv, n.value, byname_fallback=False)
-            for c in cs:
-                rets = [s for s in own_nodes(c.node) if isinstance(s, ast.Return)]
-                if len(rets) == 1 and isinstance(rets[0].value, ast.Call) and rets[0].value.keywords:
-                    for k in rets[0].value.keywords:
-                        flag_exprs[(n.targets[0].id, k.arg)] = (c, k.value)
-    # data parameters -> source, from the call site of get_rule_violation in the matcher
-    data_source = data_sources(repo, inl, grv)
-    buckets: list[Bucket] = []
-    for k in ctor.keywords:
-        if not (isinstance(k.value, ast.Call) and isinstance(k.value.func, ast.Attribute) and dotted(k.value.func.value) == "self"):
-            raise AnalysisError(f"{grv.fq}: bucket {k.arg} is not computed by a detector method: {norm(k.value)}")
-        call = k.value
-        if len(call.args) != 2:
-            raise AnalysisError(f"{grv.fq}: bucket {k.arg}: expected (flag, data) arguments")
-        fa, da = call.args
-        if isinstance(fa, ast.Attribute) and isinstance(fa.value, ast.Name) and (fa.value.id, fa.attr) in flag_exprs:
-            owner, expr = flag_exprs[(fa.value.id, fa.attr)]
-            flag = inl.formula(owner, expr)
-        else:
-            flag = inl.formula(grv, fa)
-        restrict(flag)
-        if not (isinstance(da, ast.Name) and da.id in data_source):
-            raise AnalysisError(f"{grv.fq}: bucket {k.arg}: data argument `{norm(da)}` is not one of the two query results")
-        buckets.append(Bucket(k.arg, call.func.attr, flag, data_source[da.id], call))
-    fields = [a for a in viol.ann_attrs]
-    if sorted(b.field for b in buckets) != sorted(fields):
-        raise AnalysisError(f"RuleViolations fields {fields} are not all wired: {[b.field for b in buckets]}")
-    return grv, buckets
+        raise AnalysisError("the detector of module rules has no get_rule_violation")
+    return grv
 
 
-def data_sources(repo: Repo, inl: Inliner, grv: FuncInfo) -> dict[str, str]:
-    """Parameter of get_rule_violation -> 'explicit' | 'other', traced through the matcher's call site."""
-    from core.flow import Flow, Spec
-
-    matcher = repo.cls(MATCHER, "RuleMatcher")
-
-    def sources(f: FuncInfo, e: ast.expr):
-        if isinstance(e, ast.Attribute) and isinstance(e.ctx, ast.Load):
-            if e.attr == EXPLICIT_QUERY:
-                return {"explicit"}
-            if e.attr in OTHER_QUERIES:
-                return {"other"}
-        return None
-
-    def transfer(f, call, names, args, recv, kwargs):
-        if isinstance(call.func, ast.Attribute) and call.func.attr == EXPLICIT_QUERY:
-            return {"explicit"}
-        if isinstance(call.func, ast.Attribute) and call.func.attr in OTHER_QUERIES:
-            return {"other"}
-        return None
-
-    flow = Flow(repo, inl.T, Spec(sources=sources, transfer=transfer, scope=lambda f: f.module.name in (MATCHER,)))
-    params = grv.param_names[1:]
-    out: dict[str, str] = {}
-    for m in matcher.methods.values():
-        for call in calls_in(m.node):
-            if isinstance(call.func, ast.Attribute) and call.func.attr == grv.name:
-                for i, a in enumerate(call.args):
-                    if i < len(params):
-                        tags = flow.tags(a)
-                        if len(tags) != 1:
-                            raise AnalysisError(f"{m.fq}: argument `{norm(a)}` of {grv.name} derives from {sorted(tags) or 'no'} query (expected exactly one)")
-                        out[params[i]] = next(iter(tags))
-    if len(out) != 2:
-        raise AnalysisError("call site of get_rule_violation not found in RuleMatcher")
+def _bucket_calls(repo: Repo, T: Types, grv: FuncInfo) -> dict:
+    """field -> the `self.<method>(...)` call that computes the bucket (syntactic; for rules that look at the method bodies)."""
+    viol = violations_class(repo)
+    base = grv.cls
+    out: dict = {}
+    fields = list(viol.ann_attrs)
+    funcs = [grv] + [m for m in (base.methods.values() if base else []) if m is not grv]
+    for f in funcs:
+        for call in calls_in(f.node):
+            ci = T.ctor_class(f, call)
+            if ci is None or ci.fq != viol.fq:
+                continue
+            pairs = list(zip(fields, call.args)) + [(k.arg, k.value) for k in call.keywords if k.arg]
+            for name, expr in pairs:
+                seen = 0
+                while isinstance(expr, ast.Name) and seen < 4:
+                    defs = [n for n in own_nodes(f.node) if isinstance(n, ast.Assign) and len(n.targets) == 1 and isinstance(n.targets[0], ast.Name) and n.targets[0].id == expr.id]
+                    if len(defs) != 1:
+                        break
+                    expr = defs[0].value
+                    seen += 1
+                for c in ast.walk(expr):
+                    if isinstance(c, ast.Call) and isinstance(c.func, ast.Attribute) and dotted(c.func.value) == "self" and base is not None and repo.lookup_method(base, c.func.attr) is not None:
+                        out[name] = c
+                        break
     return out
 
 
-# --------------------------------------------------------------------------- modes of the concrete detector methods
+def bucket_wiring(repo: Repo, inl: "Inliner | None" = None) -> tuple[FuncInfo, list[Bucket]]:
+    """(get_rule_violation, one Bucket per RuleViolations field): gating flag as a formula over the configuration atoms, the
+    query whose answer is judged, and the detector method computing it - all read off the interpreted detector."""
+    T = types_of(repo)
+    grv = _grv(repo)
+    viol = violations_class(repo)
+    calls = _bucket_calls(repo, T, grv)
+    tables: dict = {f: {} for f in viol.ann_attrs}
+    sources: dict = {f: set() for f in viol.ann_attrs}
+    for v, e in LEGAL_POINTS:
+        for imp in (True, False):
+            b = demand_run(repo, Scenario(v, e, imp))
+            missing = set(viol.ann_attrs) - set(b)
+            if missing:
+                raise AnalysisError(f"RuleViolations fields {sorted(missing)} are not set by get_rule_violation")
+            for f in viol.ann_attrs:
+                on = not b[f].empty
+                tables[f][(v, e)] = tables[f].get((v, e), False) or on
+                if on and b[f].source:
+                    sources[f].add(b[f].source)
+    buckets = []
+    for f in viol.ann_attrs:
+        src = sources[f]
+        # a bucket that is never active (or judges several answers) is a finding of C01.T2 / C12, not an extraction failure
+        one = next(iter(src)) if len(src) == 1 and next(iter(src)) in ("explicit", "other") else ("mixed" if src else "none")
+        c = calls.get(f)
+        buckets.append(Bucket(f, c.func.attr if c is not None else "", _pretty(tables[f]), one, c))
+    return grv, buckets
+
+
+def data_sources(repo: Repo, inl: "Inliner | None", grv: FuncInfo) -> dict[str, str]:
+    """Parameter of get_rule_violation -> 'explicit' | 'other'."""
+    m = data_param_sources(repo)
+    return {p: m[f"DATA{i}"] for i, p in enumerate(grv.param_names[1:]) if f"DATA{i}" in m}
+
+
+def point_taint(repo: Repo, verb: str, exc: bool) -> str:
+    """Non-empty when the bucket table of a configuration point rests on a construct the interpreter walked without a model
+    (a `while` loop, a handler, ...): a failed comparison at that point is *undecided*, not a finding."""
+    for imp in (True, False):
+        sc = Scenario(verb, exc, imp)
+        notes = run_scenario(repo, sc).interp.notes
+        for b in demand_run(repo, sc).values():
+            if b.undecided:
+                return b.undecided
+            if not b.empty and b.mode in ("unknown", "mixed") and notes:
+                return f"{b.field}: {b.detail or 'elements of unknown origin'} (the interpreter walked without a model: {'; '.join(notes[:3])})"
+    return ""
+
+
+def plain_mode(repo: Repo, field: str) -> tuple:
+    """(mode, granularity, detail) of a bucket of the plain (module-rule) detector, over every point at which it is active."""
+    modes, grans, details, und = set(), set(), [], ""
+    for sc in legal_scenarios():
+        b = demand_run(repo, sc)[field]
+        if b.empty:
+            continue
+        modes.add(b.mode)
+        grans.add(b.gran)
+        if b.detail:
+            details.append(b.detail)
+        und = und or b.undecided or point_taint(repo, sc.verb, sc.exc)
+    mode = next(iter(modes)) if len(modes) == 1 else ("mixed" if modes else None)
+    gran = next(iter(grans)) if len(grans) == 1 else ("joint" if "joint" in grans else "filtered" if "filtered" in grans else None)
+    return mode, gran, "; ".join(dict.fromkeys(details)), und
+
+
+# --------------------------------------------------------------------------- legacy syntactic mode classification (kept for C05: layer detector)
 
 
 def _emptiness_tests(fn: FuncInfo) -> list[ast.AST]:
